@@ -427,6 +427,45 @@ theorem untyped_result_refused (check : T → V → Bool) (thook : List (String 
   rw [← h1, hn] at this
   simp at this
 
+/-- **construct_reports.** `Node.__init__` of a user-defined operator, for every declared output list,
+    `out_variadic`, hook results and flag combination: the output Vars are keyed `field` / `field_i` in
+    declaration order; each reports exactly the type hook's entry for its key when `infer_types` is on
+    and no type at all when it is off (whatever the hook would say); a value only if the Var is typed,
+    `propagate_values` is on, the value hook has an entry and it passes `check`. -/
+theorem construct_reports (check : T → V → Bool) (thook : List (String × T)) (vhook : List (String × V))
+    (fl : Flags) (level : Nat) (conc : T → Bool) (inTypes : List (Option T))
+    (decl : List (String × Bool)) (nvar : Nat) :
+    let outs := (construct check thook vhook fl level conc inTypes decl nvar).1
+    outs.map (·.key) = outKeysOf decl nvar ∧
+    (∀ o ∈ outs, o.type = if fl.inferTypes then lookup thook o.key else none) ∧
+    (∀ o ∈ outs, ∀ v, o.value = some v →
+      fl.propValues = true ∧ lookup vhook o.key = some v ∧ ∃ t, o.type = some t ∧ check t v = true) := by
+  simp only [construct]
+  rw [inference_pointwise]
+  refine ⟨?_, ?_, ?_⟩
+  · simp only [List.map_map]
+    conv => rhs; rw [← List.map_id (outKeysOf decl nvar)]
+    apply List.map_congr_left
+    intro k _
+    exact (declared_type_reported check _ _ k).2
+  · intro o ho
+    obtain ⟨k, _, rfl⟩ := List.mem_map.mp ho
+    rw [(declared_type_reported check _ _ k).1, (declared_type_reported check _ _ k).2]
+    cases fl.inferTypes <;> simp [lookup]
+  · intro o ho v hv
+    obtain ⟨k, _, rfl⟩ := List.mem_map.mp ho
+    have hk := (declared_type_reported check (if fl.inferTypes then thook else []) (if fl.propValues then vhook else []) k)
+    rw [hk.2]
+    unfold outAfter mergeType mergeValue at hv ⊢
+    cases hp : fl.propValues <;> simp only [hp, Bool.false_eq_true, if_false, if_true] at hv ⊢
+    · cases h1 : lookup (if fl.inferTypes then thook else []) k <;> simp [h1, lookup] at hv
+    · cases h1 : lookup (if fl.inferTypes then thook else []) k <;> cases h2 : lookup vhook k <;>
+        simp [h1, h2] at hv ⊢
+      split at hv
+      · simp at hv; subst hv; simp_all
+      · simp at hv
+
+
 example : (match resultInfo (fun (t : String) => t != "f32[?]") true
       [("r0", outAfter (fun _ (_ : Nat) => true) [("Y", "f32[2]")] [] "Y")] with
     | .ok l => l == [("r0", "f32[2]")]
